@@ -73,3 +73,13 @@ CHECKS["C07"] = dict(
     thorough=dict(shards=16, checks=60, timeout=3400),
     assumptions=_LEDGER_ASSUME + ["truncation is triggered through the hook calling the real truncate synchronously; truncation racing with proposals is sampled by C18's workload only"],
 )
+
+CHECKS["C04"] = dict(
+    test="TestC04", level="exploration", exhaustive_part=True,
+    exhaustive_part_text="every single-bit flip of every fixed-width field (hashes, signatures, weight, timestamps, amounts) of sample vertices, every single-character substitution and single-bit payload flip of an address; the operator x field x position catalogue",
+    common=dict(env={"GOMEMLIMIT": "3GiB"}),
+    quick=dict(shards=8, checks=800, timeout=900),
+    thorough=dict(shards=16, checks=8000, timeout=3000),
+    assumptions=["the base ledger is reused across cases as long as its snapshot digest is unchanged (that is the oracle); a world is rebuilt after any admitted mutant",
+                 "a vertex completely re-sealed by another node is a new vertex, not a mutation (as the statement says)"],
+)
